@@ -999,13 +999,13 @@ func (ldns) Gen(rng *rand.Rand, tier string) []Case {
 			add(fmt.Sprintf("ser:%s,001,", n6hex(b)))
 		}
 		step := 1
-		if len(b) > 200 && tier != "thorough" {
-			step = 7
+		if tier != "thorough" {
+			step = 1 + len(b)/24
 		}
 		for cut := 0; cut < len(b); cut += step {
 			addDec(b[:cut], "")
 		}
-		for k := 0; k < 12*scale; k++ {
+		for k := 0; k < 5*scale; k++ {
 			m := append([]byte(nil), b...)
 			pos := rng.Intn(len(m))
 			m[pos] = byte(n6pick(rng, 0, 1, 255, 0xc0, 0x40, 0x80, int(m[pos])^0x80, int(m[pos])+1, rng.Intn(256)))
@@ -1016,10 +1016,10 @@ func (ldns) Gen(rng *rand.Rand, tier string) []Case {
 		}
 	}
 	// ---- valid messages built field by field
-	for rep := 0; rep < 60*scale; rep++ {
+	for rep := 0; rep < 45*scale; rep++ {
 		b, lay := ldnsValid(rng, rng.Intn(3), ldnsRandTypes(rng, rng.Intn(5)))
 		addAll(b)
-		if rep%3 == 0 {
+		if rep%5 == 0 {
 			for cut := 0; cut < len(b); cut++ { // every truncation length
 				addDec(b[:cut], "")
 			}
@@ -1043,7 +1043,7 @@ func (ldns) Gen(rng *rand.Rand, tier string) []Case {
 		for _, at := range lay.lenAts {
 			cur := int(b[at])<<8 | int(b[at+1])
 			rest := len(b) - at - 2
-			for _, v := range []int{0, 1, 65535, cur + 1, cur - 1, rest, rest + 1, rest - 1, 2, 3, 4, 16} {
+			for _, v := range []int{0, 1, 65535, cur + 1, cur - 1, rest, rest + 1, rest - 1, n6pick(rng, 2, 3, 4, 16, 17, 18)} {
 				if v < 0 {
 					continue
 				}
@@ -1083,7 +1083,7 @@ func (ldns) Gen(rng *rand.Rand, tier string) []Case {
 		b := append(hdr(2, 0), 1, 'a', 0xc0, 19, 0, 1, 0, 1, 1, 'b', 0xc0, 12, 0, 1, 0, 1)
 		addDec(b, "pointer-loop")
 		// chains of pointers of depth 1..: the recursion limit is 255 levels
-		for _, depth := range []int{1, 2, 10, 253, 254, 255, 256, 300} {
+		for _, depth := range []int{1, 2, 3, 10, 100, 252, 253, 254, 255, 256, 257, 300} {
 			// question = root at offset 12; record 1 (type 99) carries the chain as opaque RDATA: link i
 			// points at link i-1, the first at the root name; record 2's owner name points at the last
 			full := append(hdr(1, 2), 0)
@@ -1116,7 +1116,7 @@ func (ldns) Gen(rng *rand.Rand, tier string) []Case {
 			addDec(m, "label-length")
 			add(fmt.Sprintf("rt:%s,", n6hex(m)))
 		}
-		for _, total := range []int{250, 253, 254, 255, 256, 257, 300} {
+		for _, total := range []int{200, 250, 252, 253, 254, 255, 256, 257, 258, 300} {
 			m := hdr(1, 0)
 			left := total - 1
 			for left > 0 {
@@ -1209,7 +1209,7 @@ func (ldns) Gen(rng *rand.Rand, tier string) []Case {
 		add(fmt.Sprintf("nser:%s,%s,%s", ldnsFCD(rng), ldnsPayload(rng), ldnsValueRand(rng, rng.Intn(3) == 0)))
 	}
 	// ---- malformed stream
-	for i := 0; i < 300*scale; i++ {
+	for i := 0; i < 200*scale; i++ {
 		b := n6randBytes(rng, rng.Intn(80))
 		if len(b) >= 12 {
 			for _, p := range []int{4, 6, 8, 10} {
